@@ -238,10 +238,21 @@ func (s *metricSchemaStore) Flush() error {
 	if err != nil {
 		return err
 	}
+	// schema maybe modified(new field/tag key) when flushing, so only marks the written fields/tag keys as persisted
+	type writtenSchema struct {
+		schema          *metric.Schema
+		fields, tagKeys int
+	}
+	var written []writtenSchema
 	err = s.immutable.WalkEntry(func(key uint32, value *metric.Schema) error {
+		// genFieldID/genTagKeyID modify schema under write lock
+		s.lock.RLock()
+		defer s.lock.RUnlock()
+
 		if !value.NeedWrite() {
 			return nil
 		}
+		written = append(written, writtenSchema{schema: value, fields: len(value.Fields), tagKeys: len(value.TagKeys)})
 		flusher.Prepare(key)
 		if err0 := flusher.Write(value); err0 != nil {
 			return err0
@@ -258,10 +269,14 @@ func (s *metricSchemaStore) Flush() error {
 
 	s.lock.Lock()
 	// mark schema persisted
-	_ = s.immutable.WalkEntry(func(_ uint32, value *metric.Schema) error {
-		value.MarkPersisted()
-		return nil
-	})
+	for _, w := range written {
+		for idx := 0; idx < w.fields; idx++ {
+			w.schema.Fields[idx].Persisted = true
+		}
+		for idx := 0; idx < w.tagKeys; idx++ {
+			w.schema.TagKeys[idx].Persisted = true
+		}
+	}
 	s.immutable = nil
 	s.cache.Purge()
 	s.lock.Unlock()
